@@ -192,14 +192,12 @@ func (c *Canary) knockDetector(ctx context.Context) {
 					return
 				}
 
-				// we have two timeouts, one to send notifications,
-				// one to remove the knock. This will detect portscans
-				// with a longer interval
-
-				// TODO(): make duration configurable
-				if k.Last.Add(time.Second * 60).After(now) {
-					defer knocks.Remove(k)
-				}
+				// a group that is reported is done: remove it. (It used to be
+				// removed only when its last knock was less than a minute old;
+				// a group whose report was delayed beyond that - other sources
+				// kept the detector busy - stayed forever and was reported
+				// again on every tick.)
+				defer knocks.Remove(k)
 
 				ports := make([]string, k.Knocks.Count())
 
